@@ -159,5 +159,74 @@ theorem WValOk.new_elem_not_ref {w : World} {p : SlabID} {lim : Nat} {v : WVal} 
     intro h; cases h
     exact hvx wr rfl
 
+/-! ### `SetType` changes no signature -/
+
+/-- `SetType` through a current handle changes no container's signature (kind, keys, payloads):
+    the proof of `setType_ok` (World/OpsMisc.lean), keeping the signature frame of the notification. -/
+theorem setType_sig {w : World} {p : SlabID} {ty : Nat} {cx : Ctx} {w' : World} {cx' : Ctx}
+    (H : WorldOk D w cx.ctr) (hhand : HandleOk w p) (h : w.setType p ty cx = .ok (w', cx')) :
+    ContsSig w w' := by
+  obtain ⟨rank0, H0⟩ := H
+  unfold setType at h
+  split at h
+  · rename_i a hpa
+    have hpok : ArrOk w.T a cx.ctr := H0.conts p _ hpa
+    have hsd : Cont.SameData (.arr a) (.arr { a with ty := ty }) := ⟨rfl, rfl, fun _ => rfl⟩
+    have hctr : (a.setType ty cx).2.ctr = cx.ctr := by
+      simp only [Arr.setType]; split <;> rfl
+    have H1 : WorldOkGen D rank0 none (fun _ => False) (w.setCont p (.arr (a.setType ty cx).1)) cx.ctr :=
+      step_sameform (c1 := .arr { a with ty := ty }) H0 hpa hsd (arrOk_setType hpok)
+        (by obtain ⟨d, t, ty0⟩ := a; cases d <;> rfl) rfl
+        (fun lim => by obtain ⟨d, t, ty0⟩ := a; cases d <;> rfl)
+        rfl rfl rfl rfl (cont?_setCont_self _ _ _) (fun z hz => cont?_setCont_ne _ _ _ _ hz)
+    have hS : ContsSig w (w.setCont p (.arr (a.setType ty cx).1)) := by
+      refine ⟨rfl, fun q => ?_⟩
+      by_cases hq : p = q
+      · subst hq; rw [cont?_setCont_self, hpa]; rfl
+      · rw [cont?_setCont, if_neg hq]
+    have hhand1 : HandleOk (w.setCont p (.arr (a.setType ty cx).1)) p :=
+      hhand.transfer (fun q y => (hS.holds_iff q y).mp) (CurKept.of_sig hS (fun _ _ => rfl) (fun _ _ hy _ => hy))
+    simp only at h
+    split at h
+    · obtain ⟨_, F3, _⟩ := notify_ok D rank0 (fun _ => False) _ _ _ _ _ _
+        (by rw [hctr]; exact H1.restale p) hhand1 (fun z hz _ => absurd hz id) h
+      exact hS.trans F3.sig
+    · cases h; exact hS
+  · rename_i m hpm
+    have hmok : MapOk w.T (D p) m cx.ctr := H0.conts p _ hpm
+    have hsd : Cont.SameData (.map m) (.map { m with ty := ty }) := ⟨rfl, rfl, fun _ _ => rfl⟩
+    have hctr : (m.setType ty cx).2.ctr = cx.ctr := by
+      simp only [OMap.setType]; split <;> rfl
+    have H1 : WorldOkGen D rank0 none (fun _ => False) (w.setCont p (.map (m.setType ty cx).1)) cx.ctr :=
+      step_sameform (c1 := .map { m with ty := ty }) H0 hpm hsd (mapOk_setType hmok)
+        (by obtain ⟨d, t, ty0, cnt, seed⟩ := m; cases d <;> rfl) rfl
+        (fun lim => by obtain ⟨d, t, ty0, cnt, seed⟩ := m; cases d <;> rfl)
+        rfl rfl rfl rfl (cont?_setCont_self _ _ _) (fun z hz => cont?_setCont_ne _ _ _ _ hz)
+    have hS : ContsSig w (w.setCont p (.map (m.setType ty cx).1)) := by
+      refine ⟨rfl, fun q => ?_⟩
+      by_cases hq : p = q
+      · subst hq; rw [cont?_setCont_self, hpm]; rfl
+      · rw [cont?_setCont, if_neg hq]
+    have hhand1 : HandleOk (w.setCont p (.map (m.setType ty cx).1)) p :=
+      hhand.transfer (fun q y => (hS.holds_iff q y).mp) (CurKept.of_sig hS (fun _ _ => rfl) (fun _ _ hy _ => hy))
+    simp only at h
+    split at h
+    · obtain ⟨_, F3, _⟩ := notify_ok D rank0 (fun _ => False) _ _ _ _ _ _
+        (by rw [hctr]; exact H1.restale p) hhand1 (fun z hz _ => absurd hz id) h
+      exact hS.trans F3.sig
+    · cases h; exact hS
+  · cases h
+
+/-- the same for the invariant across disposals -/
+theorem setType_sig' {w : World} {p : SlabID} {ty : Nat} {cx : Ctx} {w' : World} {cx' : Ctx}
+    (H : WorldOk' D w cx.ctr) (hhand : HandleOk w p) (h : w.setType p ty cx = .ok (w', cx')) :
+    ∀ q, (w'.cont? q).map Cont.sig = (w.cont? q).map Cont.sig := by
+  obtain ⟨H0, S⟩ := H.down
+  obtain ⟨w0', h0, S'⟩ := sim_setType S h
+  have := setType_sig H0 (S.handleOk_down hhand) h0
+  intro q
+  rw [← S'.cont?, ← S.cont?]
+  exact this.sig q
+
 end World
 end Atree
